@@ -243,6 +243,7 @@ HARNESSES = {
     "optree": dict(opt="-O1"),
     "unitscript": dict(opt="-O1"),
     "errloc": dict(opt="-O1"),
+    "constprobe": dict(opt="-O1"),
     "json": dict(opt="-O1", sanitize=True, compiler="clang++-14", flags=["-fno-sanitize=signed-integer-overflow"]),
     "stl": dict(opt="-O1", sanitize=True, compiler="clang++-14"),
 }
